@@ -23,6 +23,9 @@ def nset(tier):
     return (list(range(1, 13)) + [17, 33, 64, 100, 200]) if tier == 'quick' else list(range(1, 201))
 
 
+RULE = RULE + ' Transformation sequences of depth <=2 are also applied to 1- and 2-segment wires, 2- and 3-segment helices and a 3-segment arc.'
+
+
 def bounds(tier, seed):
     return dict(n=nset(tier), variant=geom.variant(seed))
 
